@@ -99,8 +99,24 @@ class JournalFileBackend(BaseJournalBackend):
                     del self._log_number_offset[log_number + 1]
             return logs
 
+    def _drop_unterminated_tail(self) -> None:
+        # A writer that died in the middle of ``append_logs`` leaves a record without the
+        # trailing line separator. The next record would be glued to it and become unreadable,
+        # so the fragment is removed (with the lock held) before anything is appended.
+        with open(self._file_path, "rb+") as f:
+            size = f.seek(0, os.SEEK_END)
+            pos = size
+            while pos > 0:
+                f.seek(pos - 1)
+                if f.read(1) == b"\n":
+                    break
+                pos -= 1
+            if pos != size:
+                f.truncate(pos)
+
     def append_logs(self, logs: list[dict[str, Any]]) -> None:
         with get_lock_file(self._lock):
+            self._drop_unterminated_tail()
             what_to_write = (
                 "\n".join([json.dumps(log, separators=(",", ":")) for log in logs]) + "\n"
             )
